@@ -5,6 +5,16 @@ HERE = os.path.dirname(os.path.abspath(__file__))
 BASELINE = "cd /repo && /venv/bin/python -m pytest -ra -q -p no:cacheprovider --timeout=900 --continue-on-collection-errors"
 
 CLAIMED = {
+    'C14': dict(
+        design='4.14',
+        text='Deductive proof of the certification logic: Matrix._solver (normal return => zero solution only within tolerance, or the backend result is finite and meets '
+             'atol\'=max(atol, rtol|b|); only MatrixError escapes whatever the backend does), Matrix.solve for all 22 combinations of rhs/lhs0/constrain kind/rconstrain '
+             '(constrained entries equal their prescribed values bit for bit, also in ToleranceNotReached.best; only MatrixError escapes), System.solve (direct, iterative, default '
+             'method: tol>0 and normal return => reported residual norm of the returned arguments <= tol) and _with_solve.solve_withinfo (loop invariant; resnorm <= tol, miniter <= niter <= maxiter). '
+             'IEEE comparison semantics incl. nan; vectors of arbitrary length; all numerics uninterpreted.',
+        note='Trusted: pyvc executor; SFp model of float comparisons; numpy mask/array externals as axioms. Assumed: finite matrix/rhs without overflow for _solver; a method reports the '
+             'true residual norm of its iterate (generators are not executed); 1-D right-hand sides. Outside: correctness of the residual, accuracy, initial-guess independence, line searches, solve_constraints.',
+        technique='contract-based deductive verification: ast->z3 VC generation with loop invariants on the real function bodies, sidecar contracts'),
     'C15': dict(
         design='4.15',
         text='Deductive proof of the validation kernel: matrix.assemble_csr returns normally only if exactly the triple it was given is handed to the backend and that triple '
@@ -37,7 +47,7 @@ NOT_APPLICABLE = {
     'C02': 'whole-DAG faithful translation into generated numpy programs: no function-level postcondition carries it; would need a denotational semantics of ~150 node classes and of the generated code (DESIGN 4.2)',
     'C03': 'history/non-interference property of a program that exists only as a generated string; no per-function contract expresses it (DESIGN 4.3)',
 }
-PENDING = ['C04', 'C05', 'C07', 'C08', 'C09', 'C10', 'C11', 'C12', 'C13', 'C14', 'C16', 'C17', 'C18', 'C19', 'C20']
+PENDING = ['C04', 'C05', 'C07', 'C08', 'C09', 'C10', 'C11', 'C12', 'C13', 'C16', 'C17', 'C18', 'C19', 'C20']
 
 
 def main():
